@@ -75,16 +75,26 @@ EARLY_KINDS = ["unknown", "junk", "wrongsrc", "wrongdst", "wrongboth", "mal_empt
 def strategy(tier):
     entry = st.tuples(st.sampled_from([0.0, 0.0, 0.01, 0.05, 0.1, 0.15, 0.3, 0.7]), st.sampled_from(KINDS),
                       st.integers(256, 1000), st.binary(min_size=2, max_size=2).map(bytes.hex)).map(list)
-    req = st.tuples(st.sampled_from([0.0, 0.1, 0.25, 0.5, 1.0]), st.sampled_from(["CURCH", "GETWC", "REQRM", "AVERS"])).map(list)
+    # [delay, verb, number of replies that get lost first (the request is retried after timeout + pause)]
+    req = st.tuples(st.sampled_from([0.0, 0.1, 0.25, 0.5, 1.0]), st.sampled_from(["CURCH", "GETWC", "REQRM", "AVERS"]), st.sampled_from([0, 0, 0, 1])).map(list)
+    # a burst of n equal datagrams at fixed spacing: floods (many waiting at once) and streams that are still arriving at the instant
+    # a request's retry pause ends (request time + 4 s timeout + 2 s pause)
+    burst = st.one_of(st.none(), st.none(), st.tuples(st.sampled_from([0.0, 0.3, 3.5, 5.0, 5.5, 5.8, 6.3]), st.sampled_from([10, 40, 70, 90]),
+                                                      st.sampled_from([0, 0, 20, 50, 100]), st.sampled_from(["statp", "statp", "rferr", "unknown", "junk", "wrongdst"])).map(list))
     jitter = st.one_of(st.just([]), st.lists(st.sampled_from([0.0, 0.0, 0.005, 0.02, 0.049]), min_size=1, max_size=7))
     # noise that arrives while the connection handshake is still running (delay after the endpoint exists)
     early = st.one_of(st.just([]), st.just([]), st.lists(
         st.tuples(st.sampled_from([0.0, 0.05, 0.2, 0.5, 1.0, 1.5, 2.5, 4.0]), st.sampled_from(EARLY_KINDS)).map(list),
         min_size=1, max_size=4))
-    return st.builds(
-        lambda script, reqs, j, susp, early: {"script": script, "reqs": reqs, "jitter": j, "suspend": susp, "early": early},
+    pentry = st.tuples(st.sampled_from([0.0, 0.0, 0.01, 0.05, 0.1, 0.3]), st.sampled_from(["statp", "statp", "rferr", "wcerr", "unknown", "junk"]),
+                       st.integers(256, 1000), st.binary(min_size=2, max_size=2).map(bytes.hex), st.integers(0, 1)).map(list)
+    pair = st.builds(lambda sc: {"k": "pair", "script": sc}, st.lists(pentry, min_size=1, max_size=12))
+    single = st.builds(
+        lambda script, reqs, j, susp, early, burst: dict({"script": script, "reqs": reqs, "jitter": j, "suspend": susp, "early": early},
+                                                        **({"burst": burst} if burst else {})),
         st.lists(entry, min_size=1, max_size=16), st.lists(req, max_size=4), jitter,
-        st.lists(st.sampled_from([0.0, 0.0, 0.05, 0.35, 1.2]), max_size=6), early)
+        st.lists(st.sampled_from([0.0, 0.0, 0.05, 0.35, 1.2]), max_size=6), early, burst)
+    return st.integers(0, 9).flatmap(lambda i: pair if i == 0 else single)
 
 
 def _datagram(kind, pos, hx):
@@ -122,7 +132,72 @@ def _datagram(kind, pos, hx):
     raise InvalidCase(kind)
 
 
+def _run_pair(case) -> Result:
+    """two connections in one process (two spas, or a reconnect next to a live connection): a datagram received on one
+    connection is consumed on that connection only.  The library's own queues are left in place here (no recording), the
+    oracle is the effect: each client's block / events / acknowledgements follow from the datagrams ITS endpoint received."""
+    from geckolib import GeckoSpaEvent
+
+    res = Result()
+    W = vworld.World()
+    ids = [b"SPA01:02:03:04:05:06", b"SPA0a:0b:0c:0d:0e:0f"]
+    peers = [W.add_peer(vworld.make_simulator(identifier=i, name=f"Spa {n}")) for n, i in enumerate(ids)]
+    script = [(float(g), k, int(pos), hx, int(to) % 2) for g, k, pos, hx, to in case["script"]]
+    for _, k, _, _, _ in script:
+        if k not in ("statp", "rferr", "wcerr", "unknown", "junk"):
+            raise InvalidCase(k)
+
+    async def main(W):
+        conns = []
+        tms = []
+        try:
+            for peer in peers:
+                spa, tm, ev = await clients.connect_async_spa(W, peer)
+                tms.append(tm)
+                conns.append({"spa": spa, "ev": ev, "tr": W.transports[-1], "peer": peer, "e0": len(ev.log), "block": spa.struct.status_block,
+                              "statp": 0, "rferr": 0, "wcerr": 0})
+            w0 = len(W.wire)
+            for gap, kind, pos, hx, to in script:
+                if gap:
+                    await W.sleep(gap)
+                c = conns[to]
+                p_ = min(pos, BLOCK - 2)
+                data = bytes.fromhex(hx)
+                body = {"statp": R.partial_update([(p_, data)]), "rferr": R.rferr(), "wcerr": b"WCERR", "unknown": b"XYZZY" + data}.get(kind)
+                dg = R.frame(ids[to], clients.CLIENT_ID, body) if body is not None else b"\x00garbage " + data
+                W.inject(c["tr"], dg, c["peer"].addr)
+                if kind == "statp":
+                    c["block"] = c["block"][:p_] + data + c["block"][p_ + 2:]
+                    c["statp"] += 1
+                elif kind in ("rferr", "wcerr"):
+                    c[kind] += 1
+            await W.drain([c["spa"]._protocol.queue for c in conns], quiet=1.5, limit=200)
+            await W.sleep(2.0)
+            for n, c in enumerate(conns):
+                spa = c["spa"]
+                if spa.struct.status_block != c["block"]:
+                    bad = [k for k in range(BLOCK) if spa.struct.status_block[k] != c["block"][k]][:8]
+                    res.fail("C07|cross-talk|block", f"connection {n}: block differs from the fold of the updates its own endpoint received, at {bad}")
+                evs = [e for _, e, _ in c["ev"].log[c["e0"]:]]
+                if evs.count(GeckoSpaEvent.ERROR_RF_ERROR) != c["rferr"] or evs.count(GeckoSpaEvent.RUNNING_SPA_WATER_CARE_ERROR) != c["wcerr"]:
+                    res.fail("C07|cross-talk|events", f"connection {n}: received {c['rferr']} RFERR / {c['wcerr']} WCERR but raised "
+                             f"{evs.count(GeckoSpaEvent.ERROR_RF_ERROR)} / {evs.count(GeckoSpaEvent.RUNNING_SPA_WATER_CARE_ERROR)} events")
+                acks = sum(1 for w in W.wire[w0:] if w[1] == "c2s" and b"<DATAS>STATQ" in w[4] and b"<DESCN>" + ids[n] in w[4])
+                if acks != c["statp"]:
+                    res.fail("C07|cross-talk|acks", f"connection {n}: {c['statp']} partial updates received, {acks} acknowledgements sent to that spa")
+        finally:
+            for tm in tms:
+                await clients.shutdown(tm)
+
+    W.run(main)
+    res.nontrivial = len({to for *_, to in script}) == 2
+    res.label("two-connections")
+    return res
+
+
 def run_case(case) -> Result:
+    if case.get("k") == "pair":
+        return _run_pair(case)
     from geckolib import GeckoSpaEvent
     from geckolib.driver import (GeckoGetChannelProtocolHandler, GeckoRemindersProtocolHandler,
                                  GeckoVersionProtocolHandler, GeckoWatercareProtocolHandler)
@@ -201,11 +276,45 @@ def run_case(case) -> Result:
                 await W.sleep(delay)
                 return await proto.get(factories[name], None, 2)
 
-            for delay, name in case.get("reqs", []):
+            lose = {}   # response verb -> replies still to be lost
+            RESP = {"CURCH": b"CHCUR", "GETWC": b"WCGET", "REQRM": b"RMREQ", "AVERS": b"SVERS"}
+
+            def lose_filter(data):
+                for v, k in lose.items():
+                    if k > 0 and b"<DATAS>" + v in data:
+                        lose[v] = k - 1
+                        return "drop"
+                return None
+            for r_ in case.get("reqs", []):
+                delay, name = r_[0], r_[1]
                 if name not in factories:
                     raise InvalidCase(name)
+                if len(r_) > 2 and r_[2]:
+                    lose[RESP[name]] = lose.get(RESP[name], 0) + min(int(r_[2]), 1)
                 waiters.append(asyncio.ensure_future(later(delay, name)))
                 waiters[-1].set_name("VP:" + name)
+            if lose:
+                W.s2c_filter = lose_filter
+            burst = case.get("burst")
+            burst_task = None
+            if burst:
+                b_start, b_n, b_gap, b_kind = float(burst[0]), min(int(burst[1]), 100), max(0, int(burst[2])) / 1000.0, burst[3]
+                b_dg = _datagram(b_kind, 700, "a55a")
+
+                async def run_burst():
+                    nonlocal n_valid_statp, n_rferr, n_wcerr
+                    await W.sleep(b_start)
+                    for _ in range(b_n):
+                        W.inject(tr, b_dg, peer.addr)
+                        if b_kind == "statp":
+                            n_valid_statp += 1
+                        elif b_kind == "rferr":
+                            n_rferr += 1
+                        elif b_kind == "wcerr":
+                            n_wcerr += 1
+                        if b_gap:
+                            await W.sleep(b_gap)
+                burst_task = asyncio.ensure_future(run_burst())
             for gap, kind, pos, hx in case["script"]:
                 if gap:
                     await W.sleep(float(gap))
@@ -220,8 +329,11 @@ def run_case(case) -> Result:
                 elif kind == "wcerr":
                     n_wcerr += 1
             t_end = W.clock.t + 120
-            while waiters and not all(w.done() for w in waiters) and W.clock.t < t_end:
+            while ((waiters and not all(w.done() for w in waiters)) or (burst_task is not None and not burst_task.done())) and W.clock.t < t_end:
                 await W.sleep(0.2)
+            if burst_task is not None:
+                await burst_task
+            W.s2c_filter = None
             await W.drain([q], quiet=1.5, limit=200)
             await W.sleep(2.0)
 
@@ -312,7 +424,7 @@ def run_case(case) -> Result:
                          f"only {n_rferr}/{n_valid_statp}/{n_wcerr} correctly addressed ones were sent")
             # every solicited request got its reply (nothing blocked it)
             for wtask in waiters:
-                if wtask.done() and not wtask.cancelled() and wtask.exception() is None and wtask.result() is None and not jitter:
+                if wtask.done() and not wtask.cancelled() and wtask.exception() is None and wtask.result() is None and not jitter and not burst and not any(len(r_) > 2 and r_[2] for r_ in case.get('reqs', [])):
                     res.fail("C07|solicited-reply-lost", f"{wtask.get_name()} got no reply although the simulator answered (nominal schedule)")
                 if not wtask.done():
                     wtask.cancel()
@@ -336,4 +448,8 @@ def run_case(case) -> Result:
         res.label("jittered")
     if case.get("early"):
         res.label("noise-during-handshake")
+    if case.get("burst"):
+        res.label("burst-" + str(case["burst"][3]), "flood" if case["burst"][1] > 64 and case["burst"][2] == 0 else "stream")
+    if any(len(r_) > 2 and r_[2] for r_ in case.get("reqs", [])):
+        res.label("request-retried")
     return res
